@@ -280,8 +280,8 @@ def execute(mod, cases):
         else:
             res = run_scenarios([s for _, _, s in items], flavor=flavor, mode=driver)
         # re-run timeouts once, alone (inconclusive until it repeats)
-        again = [k for k, r in enumerate(res) if r.summary.get("timeout")]
-        if again and not hasattr(mod, "run_batch"):
+        again = [] if hasattr(mod, "run_batch") else [k for k, r in enumerate(res) if r.summary.get("timeout")]
+        if again:
             res2 = run_scenarios([items[k][2] for k in again], flavor=flavor, mode=driver, jobs=2)
             for k, r2 in zip(again, res2):
                 res[k] = r2
